@@ -5,9 +5,11 @@ ASSUMPTIONS = ["py-lmdb behaves like shims/lmdb.py (ordered map, cursor conventi
 
 
 def run(tier, seed):
-    return [kvm.suite_scan(tier, seed), kvm.suite_multi(tier, seed)]
+    # correspondence of the shared model only; the executable statements of C01/C02/C11/C12 (kvm.suites_c01 ... suites_c12)
+    # run under the property checks, where their known findings are listed
+    return [kvm.suite_scan(tier, seed), kvm.suite_multi(tier, seed), kvm.suite_plan(tier, seed), kvm.suite_answer(tier, seed),
+            kvm.suite_hostile(tier, seed)]
 
 
 def replay(payload):
-    print("no replay for KVM")
-    return 0
+    return kvm.replay(payload)
